@@ -61,6 +61,8 @@ type Component struct {
 	svcGroupResolver *svcgroup.Resolver
 	cache            cache.Cache
 	opdb             opdb.Store
+	ckpt             *opdb.OrderedWriter
+	ckptOnce         sync.Once
 	exclusivity      session.ExclusivityRegistry
 
 	acName    string
@@ -1144,11 +1146,19 @@ func (c *Component) checkpointSession(sess *SessionState) {
 		return
 	}
 
-	go func() {
-		if err := c.opdb.Put(c.Ctx, opdb.NamespacePPPoESessions, sessID, data); err != nil {
-			c.logger.Warn("Failed to checkpoint session", "session_id", sessID, "error", err)
-		}
-	}()
+	// Off the packet path, but ordered against later checkpoints and the
+	// delete of the same session: a write still in flight when the session
+	// is released must not land after the delete.
+	c.checkpointWriter().PutAsync(c.Ctx, opdb.NamespacePPPoESessions, sessID, data, func(err error) {
+		c.logger.Warn("Failed to checkpoint session", "session_id", sessID, "error", err)
+	})
+}
+
+// checkpointWriter orders this component's session checkpoint writes per
+// session id (see opdb.OrderedWriter).
+func (c *Component) checkpointWriter() *opdb.OrderedWriter {
+	c.ckptOnce.Do(func() { c.ckpt = opdb.NewOrderedWriter(c.opdb) })
+	return c.ckpt
 }
 
 func (c *Component) deleteSessionCheckpoint(sessionID string) {
@@ -1156,7 +1166,7 @@ func (c *Component) deleteSessionCheckpoint(sessionID string) {
 		return
 	}
 
-	if err := c.opdb.Delete(c.Ctx, opdb.NamespacePPPoESessions, sessionID); err != nil {
+	if err := c.checkpointWriter().Delete(c.Ctx, opdb.NamespacePPPoESessions, sessionID); err != nil {
 		c.logger.Warn("Failed to delete session checkpoint", "session_id", sessionID, "error", err)
 	}
 }
@@ -1180,7 +1190,7 @@ func (c *Component) restoreSessions(ctx context.Context) error {
 		}
 
 		if c.isSessionExpired(&sess, now) {
-			if err := c.opdb.Delete(ctx, opdb.NamespacePPPoESessions, key); err != nil {
+			if err := c.checkpointWriter().Delete(ctx, opdb.NamespacePPPoESessions, key); err != nil {
 				c.logger.Warn("Failed to delete expired session", "key", key, "error", err)
 			}
 			expired++
@@ -1789,7 +1799,7 @@ func (c *Component) checkpointSessionSync(sess *SessionState) error {
 	if err != nil {
 		return fmt.Errorf("marshal session: %w", err)
 	}
-	return c.opdb.Put(c.Ctx, opdb.NamespacePPPoESessions, sess.SessionID, data)
+	return c.checkpointWriter().Put(c.Ctx, opdb.NamespacePPPoESessions, sess.SessionID, data)
 }
 
 func (c *Component) buildModelSnapshot(sess *SessionState) *models.PPPSession {
